@@ -80,6 +80,17 @@ def repo_files():
     return out
 
 
+# names that differ only in case (legal and common: K / k, Cm / cm, V / v): whatever orders name-unique sets must still tell them apart
+CASE_VARIANT_ODE = (
+    "parameters(K=1.5, k=0.5, Cm=2.0, cm=0.25, R=3.0, r=0.1)\nstates(V=-0.3, v=0.7, N=0.2, n=0.9)\n"
+    "I_K = K*V - k*v\ni_k = Cm*N + cm*n\nG = R*I_K\ng = r*i_k\n"
+    "dV_dt = -I_K + g\ndv_dt = i_k - G*v\ndN_dt = V - N*R\ndn_dt = v - n*r\n")
+CASE_VARIANT_ODE2 = (
+    "parameters(\"A\", Ko=5.4, ko=0.3)\nparameters(\"B\", GNa=11.0, gna=0.7)\nstates(\"A\", X=1.0, x=2.0)\nstates(\"B\", Y=0.5, y=1.5)\n"
+    "expressions(\"A\")\nW = Ko*X + y\nw = ko*x + Y\ndX_dt = -W\ndx_dt = -w\n"
+    "expressions(\"B\")\nU = GNa*Y - w\nu = gna*y - W\ndY_dt = U\ndy_dt = u\n")
+
+
 def cases(tier, seed, focus):
     quick = tier == "quick"
     hs = list(range(4 if quick else 8))
@@ -97,7 +108,7 @@ def cases(tier, seed, focus):
             for k in range(0, len(CONFIGS), 2):
                 filecases.append(dict(c, configs=[k, k + 1]))
     ngroups = 40 if quick else 450
-    gens = []
+    gens = [{"kind": "hashseed", "models": [{"ode": CASE_VARIANT_ODE, "configs": [0, 1, 2]}, {"ode": CASE_VARIANT_ODE2, "configs": [0, 1]}], "hashseeds": hs, "tags": tg_h}]
     for g in range(ngroups):
         ms = []
         for j in range(3):
